@@ -2,7 +2,7 @@
    Statements only; every proof is [exact] of a lemma from Proofs/.  The window [W] is the
    constant reflected from the compiled crate (gen/Consts.v), regenerated on every run. *)
 From Brc.Model Require Import Base History Table BlockTable.
-From Brc.Proofs Require Import HistoryP.
+From Brc.Proofs Require Import HistoryP KvP TableP.
 From BrcGen Require Import Consts.
 
 (* The property text fixes the numbers: a 10-block window, at most 11 versions. *)
@@ -42,3 +42,84 @@ Example C13_history_nonvacuous :
               [HSet 1 5; HSet 2 5; HSet 3 6; HUnset 4; HSet 16 7; HSet 17 8; HReorg 16] = Ok h
             /\ h = [(4, None); (16, Some 7)].
 Proof. eexists. split; vm_compute; reflexivity. Qed.
+
+(* ---------------------------------------------------------------------------------------
+   The versioned table (BlockCachedDatabase).  [TRepr t T]: every key's cell (latest row,
+   persisted history row, cache entry) represents the plain map [T] from keys to "value as of
+   block m" functions, with the copy saved at the last commit; [ts_step] is the plain map's
+   transition (set/unset overwrite from the stamp on, commit saves, clear restores the saved
+   copy, rollback composes with min n). *)
+
+(* Any interleaving of set / unset / commit / clear(=discard, reopen) / rollback that does
+   not panic and whose rollbacks stay inside the window keeps the table a representation of
+   the plain map run on the same operations. *)
+Theorem C13_table_refines_map :
+  forall (V : Type) (veq : V -> V -> bool), (forall a b, veq a b = true <-> a = b) ->
+  forall (ops : list top) (t' : table),
+    run_in_window W ts_init ops ->
+    t_run veq W t_empty ops = Ok t' ->
+    TRepr W t' (fold_left ts_step ops ts_init).
+Proof.
+  exact (fun V veq Hveq ops t' Hw Hr =>
+           table_run_refines veq Hveq W ops t_empty ts_init t' (TRepr_init W) Hw Hr).
+Qed.
+Print Assumptions C13_table_refines_map.
+
+(* Point reads return the plain map's current value. *)
+Theorem C13_table_point_read :
+  forall (V : Type) (t : @table V) (T : tspec) (k m : N),
+    TRepr W t T -> ts_clk T <= m -> t_latest t k = Ok (ts_cur T k m).
+Proof. exact (fun V => @TRepr_latest V W). Qed.
+Print Assumptions C13_table_point_read.
+
+(* Range scans are complete, exact and in key order, for every order of the in-memory cache. *)
+Theorem C13_table_range_scan :
+  forall (V : Type) (t : @table V) (T : tspec) (lo hi : N),
+    TRepr W t T ->
+    exists l, t_get_range t lo hi = Ok l /\ ksorted l /\
+      forall k, kv_get l k = if in_range lo hi k then latest_or_none t k else None.
+Proof. exact (fun V => @get_range_spec V W). Qed.
+Print Assumptions C13_table_range_scan.
+
+(* ... so cache order and commit placement are unobservable through range scans. *)
+Theorem C13_table_scan_determined_by_point_reads :
+  forall (V : Type) (t1 : @table V) T1 (t2 : @table V) T2 lo hi,
+    TRepr W t1 T1 -> TRepr W t2 T2 ->
+    (forall k, latest_or_none t1 k = latest_or_none t2 k) ->
+    t_get_range t1 lo hi = t_get_range t2 lo hi.
+Proof. exact (fun V => @get_range_determined_by_latest V W). Qed.
+Print Assumptions C13_table_scan_determined_by_point_reads.
+
+(* Commit, clear and a rollback inside the window never panic. *)
+Theorem C13_table_no_panic_in_window :
+  forall (V : Type) (veq : V -> V -> bool) (t : @table V) (T : tspec) (o : top),
+    TRepr W t T -> op_in_window W T o ->
+    match o with TSet _ _ _ | TUnset _ _ => True | _ => t_step veq W t o <> Panic end.
+Proof. exact (fun V veq => @table_step_no_panic V veq W). Qed.
+Print Assumptions C13_table_no_panic_in_window.
+
+(* Known finding F13: BELOW the window the table, used on its own, can be silently wrong
+   (history dropped as old at a commit, re-seeded at block 0 from the latest value). The
+   property clause "deeper rollbacks are never silently wrong" is refuted for the table in
+   isolation by this witness; the store refuses such rollbacks (C01). *)
+Theorem C13_table_deep_rollback_refuted :
+  exists (ops : list top) (t' : table),
+    t_run N.eqb W t_empty ops = Ok t' /\
+    t_latest t' 1 = Ok (Some 100) /\
+    ts_cur (fold_left ts_step ops ts_init) 1 (ts_clk (fold_left ts_step ops ts_init)) = None.
+Proof.
+  exists [TSet 5 1 100; TCommit 17; TSet 17 1 100; TCommit 18; TReorg 3]. eexists.
+  split; [vm_compute; reflexivity|]. split; vm_compute; reflexivity.
+Qed.
+
+(* Non-vacuity of the table theorems: a run with overwrite, delete, commit, discard and an
+   in-window rollback satisfies [run_in_window] and does not panic. *)
+Example C13_table_nonvacuous :
+  let ops := [TSet 1 7 1; TSet 2 9 2; TCommit 3; TUnset 3 7; TSet 4 9 3; TClear; TSet 12 7 5; TCommit 13; TReorg 3] in
+  run_in_window W ts_init ops /\ exists t', t_run N.eqb W t_empty ops = Ok t' /\
+  t_get_range t' 0 100 = Ok [(7, 1); (9, 2)].
+Proof.
+  split.
+  - cbn. repeat split; vm_compute; discriminate.
+  - eexists. split; vm_compute; reflexivity.
+Qed.
